@@ -157,3 +157,16 @@ package rest
 //@   property C18
 //@   opts own
 //@   modifies *
+
+// ---- C15: "no well-formed setting is silently dropped": a TLS file setting the section carries is either recorded
+// (and then has to load) or the section is refused ----
+//@ func newTLSConfig
+//@   opts trusted
+//@   ensures err == nil ==> res != nil
+//@   modifies nothing
+//@ func (cfg *Config) tlsOptions
+//@   property C15
+//@   requires cfg != nil && jcfg != nil
+//@   ensures [tls-files-recorded-or-refused] err == nil && (jcfg.SSLCertFile != "" || jcfg.SSLKeyFile != "") ==> cfg.pathSSLCertFile == jcfg.SSLCertFile && cfg.pathSSLKeyFile == jcfg.SSLKeyFile && cfg.TLS != nil
+//@   ensures [no-tls-setting-no-tls] jcfg.SSLCertFile == "" && jcfg.SSLKeyFile == "" ==> err == nil && cfg.TLS == old(cfg.TLS)
+//@   modifies heap(Config)
